@@ -136,14 +136,14 @@ def class_level_mutables(cnode: ast.ClassDef) -> List[Tuple[str, ast.AST]]:
     return out
 
 
-def fresh(e: ast.expr, model: Model, module: str, params: Set[str], locals_ok: Set[str]) -> Tuple[bool, str]:
+def fresh(e: ast.expr, model: Model, module: str, params: Set[str], locals_ok: Set[str], _depth: int = 0) -> Tuple[bool, str]:
     """Is the value of e freshly allocated / immutable (not shared with anything outside this call)?"""
     if isinstance(e, ast.Constant):
         return True, "literal"
     if isinstance(e, (ast.List, ast.Dict, ast.Set, ast.Tuple)):
         for x in ast.iter_child_nodes(e):
             if isinstance(x, ast.expr):
-                ok, why = fresh(x, model, module, params, locals_ok)
+                ok, why = fresh(x, model, module, params, locals_ok, _depth)
                 if not ok:
                     return ok, why
         return True, "display"
@@ -162,9 +162,30 @@ def fresh(e: ast.expr, model: Model, module: str, params: Set[str], locals_ok: S
         q = model.resolve_name(module, norm(e.func)) if isinstance(e.func, (ast.Name, ast.Attribute)) else None
         is_ctor = q in model.classes or norm(e.func) in ("set", "bytearray", "list", "dict", "bytes", "super().__init__")
         if not is_ctor:
+            # a package factory function: undecorated (no cache), and every return value is itself fresh given fresh arguments
+            fi = model.functions.get(q) if q else None
+            if fi is not None and fi.cls is None and not isinstance(fi.node, ast.Lambda) and not fi.node.decorator_list and _depth < 3:
+                ps = fi.params()
+                bound = {ps[i]: a for i, a in enumerate(e.args) if i < len(ps)}
+                bound.update({k.arg: k.value for k in e.keywords if k.arg in ps})
+                ok_params = set()
+                for p_, a in bound.items():
+                    ok, why = fresh(a, model, module, params, locals_ok, _depth + 1)
+                    if ok:
+                        ok_params.add(p_)
+                stores = {x.id for x in walk_no_nested(fi.node) if isinstance(x, ast.Name) and isinstance(x.ctx, ast.Store)}
+                ok_params -= stores
+                loc_ok = {t.id for s_ in fi.node.body if isinstance(s_, ast.Assign) and isinstance(s_.value, ast.Constant) for t in s_.targets if isinstance(t, ast.Name)}
+                rets = [r for r in walk_no_nested(fi.node) if isinstance(r, ast.Return)]
+                if rets and all(r.value is not None for r in rets) and not any(isinstance(x, (ast.Global, ast.Nonlocal, ast.Yield, ast.YieldFrom)) for x in ast.walk(fi.node)):
+                    for r in rets:
+                        ok, why = fresh(r.value, model, fi.module, set(ps) - ok_params, ok_params | loc_ok, _depth + 1)
+                        if not ok:
+                            return False, f"result of `{norm(e.func)}`, which returns {why}"
+                    return True, "factory function returning a fresh allocation"
             return False, f"result of `{norm(e.func)}` (not a constructor)"
         for a in list(e.args) + [k.value for k in e.keywords]:
-            ok, why = fresh(a, model, module, params, locals_ok)
+            ok, why = fresh(a, model, module, params, locals_ok, _depth)
             if not ok:
                 return ok, why
         return True, "constructor call"
